@@ -256,12 +256,17 @@ def run(facts, cg):
                 pb = params_of(simplify(T.resolve_env(simplify(T.of_operand(b, st['rv']['b'])))))
                 if len(pa) != 1 or len(pb) != 1 or pa == pb:
                     continue
-                if sw['k'] != 'switch' or sw['op']['k'] not in ('copy', 'move') or sw['op']['pl']['l'] != st['pl']['l']:
+                from .r_accept import deciding_switch
+                dsw = deciding_switch(b, bi, st['pl']['l'])
+                if dsw is None:
                     continue
+                sw2, flipped = dsw
                 n_acc += 1
-                t_edge, f_edge = sw['otherwise'], dict(zip(sw['vals'], sw['targets'])).get(0)
+                t_edge, f_edge = sw2['otherwise'], dict(zip(sw2['vals'], sw2['targets'])).get(0)
+                if flipped:
+                    t_edge, f_edge = f_edge, t_edge
                 rej = None
-                if exit_outcomes_from(b, t_edge) <= {'Err'}:
+                if t_edge is not None and exit_outcomes_from(b, t_edge) <= {'Err'}:
                     rej = st['rv']['op']
                 elif f_edge is not None and exit_outcomes_from(b, f_edge) <= {'Err'}:
                     rej = NEG[st['rv']['op']]
